@@ -63,6 +63,7 @@ type c10Input struct {
 	Text     string    `json:"text,omitempty"`
 	Steps    []c10Step `json:"steps,omitempty"`
 	Trailing bool      `json:"trailing,omitempty"`
+	Seed     int64     `json:"seed,omitempty"` // regex: generator seed (0 = the default)
 	Source   string    `json:"source,omitempty"`
 
 	id      string
@@ -82,6 +83,9 @@ var (
 // raw is the identity of an input: its kind and every text in it.
 func (in *c10Input) raw() string {
 	parts := []string{in.Kind, in.Text, strconv.FormatBool(in.Trailing)}
+	if in.Seed != 0 {
+		parts = append(parts, "seed", strconv.FormatInt(in.Seed, 10))
+	}
 	if in.Project != nil {
 		parts = append(parts, "root", in.Project.Root)
 		for _, t := range in.Project.Types {
@@ -365,7 +369,11 @@ func c10Create(in *c10Input, keep func(c10Kept)) (o *c10Obj, out string) {
 	case "enum":
 		o.en = enum.New("@e", in.Text)
 	case "regex":
-		o.rx = regex.New("r", in.Text)
+		if in.Seed != 0 {
+			o.rx = regex.New("r", in.Text, regex.WithGeneratorSeed(in.Seed))
+		} else {
+			o.rx = regex.New("r", in.Text)
+		}
 	case "doc":
 		if in.Trailing {
 			o.doc = jdoc.New("doc", in.Text, jdoc.AllowTrailingNonSpaceCharacters())
@@ -1262,6 +1270,9 @@ func c10BuildUniverse(r *mon.Run) *c10Universe {
 	}
 	for _, s := range c10Regexes {
 		u.add(&u.fixed, &c10Input{Kind: "regex", Text: s}, "fixed: regex schema")
+		// the same text with other generator seeds: another input, with its own examples
+		u.add(&u.fixed, &c10Input{Kind: "regex", Text: s, Seed: 42}, "fixed: regex schema with a generator seed")
+		u.add(&u.fixed, &c10Input{Kind: "regex", Text: s, Seed: 7}, "fixed: regex schema with a generator seed")
 	}
 	for _, s := range c10Docs {
 		u.add(&u.fixed, &c10Input{Kind: "doc", Text: s}, "fixed: JSON document")
